@@ -1,8 +1,9 @@
 #!/bin/sh
 # usage: scripts/try_seed.sh <patch.diff> <property> [extra govc args]
 # Applies a seeded change to /repo, runs the property's quick check, and always reverts.
-patch="$1"; prop="$2"; shift 2
+patch=$(readlink -f "$1"); prop="$2"; shift 2
 cd /repo || exit 2
+if [ -n "$(git status --porcelain | grep -v '^??')" ]; then echo "REFUSING: /repo has uncommitted changes (commit them first)"; exit 4; fi
 if ! git apply --check "$patch" 2>/dev/null; then
   if ! git apply --3way --check "$patch" 2>/dev/null; then echo "PATCH DOES NOT APPLY: $patch"; exit 3; fi
   git apply --3way "$patch"
